@@ -14,9 +14,9 @@ import ast
 from ..engine import rule, run_property
 from ..model import Undecided
 from ..cfg import dotted, call_name, is_call, simple_name, unparse, const_value, contains, enclosing
-from ..flow import Defs, depends, scoped_defs
+from ..flow import Canon, Defs, depends, scoped_defs
 from ..axis import axis_reports
-from ..util import origin_path, keyword, returns_of, calls_in, inside, order_key
+from ..util import resolve1, origin_path, keyword, returns_of, calls_in, inside, order_key
 
 NOT_DECIDED = 'pixel identity across strategies, crop offsets at truncated buffers, size rounding, which strategy is chosen'
 
@@ -98,9 +98,12 @@ def c04a(ctx):
             [unparse(i) for i in a.generators[0].ifs] == ['t.cacheable'] and unparse(a.elt) == 't'
     ctx.check(ok, 'TileCreator._create_bulk_meta_tile:stores-all-cacheable', 'every collected tile that is cacheable is stored', fb,
               fail='the bulk creator does not store all cacheable tiles it fetched')
-    ap = [x for x in fb.walk_all() if is_call(x, 'tiles.append')]
+    fbdefs = Defs(fb.node)
     im = [x for x in fb.walk_all() if is_call(x, 'imap')]
-    ok = bool(ap) and bool(im) and isinstance(im[0].args[1], ast.ListComp) and unparse(im[0].args[1].generators[0].iter) == 'meta_tile.tiles'
+    ap = [x for x in fb.walk_all() if isinstance(x, ast.Call) and isinstance(x.func, ast.Attribute) and x.func.attr == 'append' and
+          any(x is y for l in fb.walk_all() if isinstance(l, ast.For) and im and l.iter is im[0] for y in ast.walk(l))]
+    coords = resolve1(im[0].args[1], fbdefs) if im and len(im[0].args) > 1 else None
+    ok = bool(ap) and bool(im) and isinstance(coords, ast.ListComp) and unparse(coords.generators[0].iter) == 'meta_tile.tiles'
     ctx.check(ok, 'TileCreator._create_bulk_meta_tile:all-tiles-queried', 'every tile of the meta tile is queried', fb)
 
 
@@ -127,7 +130,11 @@ def c04b(ctx):
                     if isinstance(a, ast.Attribute) and unparse(a.value) == 'self' and a.attr.startswith('_create'):
                         out |= leaves(a.attr, seen + (mname,))
         return out or {mname}
-    branches = [v for v, sel in defs.of('created_tiles')]
+    # what create_tiles returns, in closed form: the result of one creator method per strategy (or [] without sources)
+    cf = Canon(fn)
+    rvals = [cf.expr(r.value) for r in returns_of(fn.node) if r.value is not None]
+    multi = [r.value.id for r in returns_of(fn.node) if isinstance(r.value, ast.Name) and isinstance(cf.expr(r.value), ast.Name)]
+    branches = [v for v in rvals if isinstance(v, ast.Call)] + [v for nm in multi for v, sel in defs.of(nm)]
     ok = bool(branches)
     for b in branches:
         if not (isinstance(b, ast.Call) and isinstance(b.func, ast.Attribute) and unparse(b.func.value) == 'self'):
@@ -137,8 +144,7 @@ def c04b(ctx):
         ctx.check(lv <= COVERED_CREATORS, 'TileCreator.create_tiles:%s' % b.func.attr,
                   'strategy %s ends in %s (locked fetch-split-store creators)' % (b.func.attr, sorted(lv)), fn, b,
                   fail='strategy %s reaches %s: a creation path outside the locked creators covered by C08.a / C04.a' % (b.func.attr, sorted(lv - COVERED_CREATORS)))
-    rets = returns_of(fn.node)
-    ok = all(unparse(r.value) in ('created_tiles', '[]') for r in rets)
+    ok = bool(rvals) and all(isinstance(v, ast.Call) or unparse(v) == '[]' or (isinstance(v, ast.Name) and v.id in multi) for v in rvals)
     ctx.check(ok, 'TileCreator.create_tiles:returns-created', 'create_tiles returns what the chosen creator produced (or nothing without sources)', fn)
     th = ctx.fn(TILE + ':TileCreator._create_threaded')
     ok = any(is_call(x, 'imap') and unparse(x.args[0]) == 'create_func' and unparse(x.args[1]) == 'tiles' for x in th.walk())
@@ -173,7 +179,11 @@ def c04c(ctx):
     for u in users:
         f = ctx.fn('%s:MetaGrid.%s' % (G, u))
         calls = [x for x in f.walk() if is_call(x, 'self._meta_size')]
-        ok = bool(calls)
+        # ... directly, or by delegating the alignment to a sibling that does (get_affected_level_tiles -> main_tile)
+        direct = {v for v in users if any(is_call(x, 'self._meta_size') for x in ctx.fn('%s:MetaGrid.%s' % (G, v)).walk())}
+        via = [x for x in f.walk() if isinstance(x, ast.Call) and isinstance(x.func, ast.Attribute) and unparse(x.func.value) == 'self'
+               and x.func.attr in direct and x.func.attr != u]
+        ok = bool(calls) or bool(via)
         # the level argument is the level of the coordinate handled in that function
         ctx.check(ok, 'MetaGrid.%s:uses-_meta_size' % u, 'meta geometry of this function goes through _meta_size(<level>)', f)
     # split pattern: column offset with tile_size[0] + left buffer, row offset with tile_size[1] + top buffer
